@@ -1,8 +1,284 @@
 import EdpVerif.Drv.Common
-namespace Edp.Drv
+import EdpVerif.Impl.Procs
+import EdpVerif.Spec.Procs
+/-! Driver requests of property C18 (local processes).
 
-/-- driver requests of property C18 (stub: nothing handled yet) -/
+* `c18run cap tok…`  — replay of an executed history through the small-step model (trace inclusion): the tokens are the
+  atomic blocks of a run of the real `Node` on a current-thread runtime, in the order they happened
+    `c<t>:<op>`   client task t ran the call `op` from start to end
+                  (`sp.<trap>` `rg.n.p` `ur.n` `wh.n` `rd` `ct` `sd.p.id.f` `sn.n.id.f` `lk.a.b` `ul.a.b` `mo.a.b` `dm.a.b.r`)
+    `h<p>`        the task of process p received one message and ran the handler
+    `x<p>.1|2|3`  the task of p arrived at `proc:before_exit_signals` | `proc:between_links_and_monitors` |
+                  `proc:before_registry_remove` (the accesses to shared state since the previous point are replayed here)
+    `d<p>`        the task of p ended (`registry.remove`, mailbox dropped)
+  The result is one item per token: the call's result, the handled message, `.` for x/d; `!…` when the model cannot take
+  the step. Runs of `MonitorExit` of one monitored pid that are adjacent in a receiver's handled sequence are sorted by
+  reference (the real order is the iteration order of a `HashSet`).
+* `c18reg ops…`      — `ProcessRegistry` driven directly, sequentially
+* `c18gs body result live` — `GenServerProcess::handle_message` on `Regular{body}`
+* `c18ge from body callreply ids live` — `GenEventManager::handle_message` on `Regular{from, body}`
+* `c18spec tok=result…` / `c18specfull …` — the Spec oracle on an observed history
+-/
+namespace Edp.Drv
+namespace C18
+open Edp.Impl.Procs
+
+def nat (s : String) : Except String Nat :=
+  match s.toNat? with
+  | some n => .ok n
+  | none => .error ("bad-nat " ++ s)
+
+def parseOp (s : String) : Except String Op :=
+  match s.splitOn "." with
+  | ["sp", tr] => do pure (.spawn ((← nat tr) != 0))
+  | ["rg", n, p] => do pure (.register (← nat n) (← nat p))
+  | ["ur", n] => do pure (.unregister (← nat n))
+  | ["wh", n] => do pure (.whereis (← nat n))
+  | ["rd"] => pure .registered
+  | ["ct"] => pure .count
+  | ["sd", p, i, f] => do pure (.send (← nat p) (← nat i) ((← nat f) != 0))
+  | ["sn", n, i, f] => do pure (.sendName (← nat n) (← nat i) ((← nat f) != 0))
+  | ["lk", a, b] => do pure (.link (← nat a) (← nat b))
+  | ["ul", a, b] => do pure (.unlink (← nat a) (← nat b))
+  | ["mo", a, b] => do pure (.monitor (← nat a) (← nat b))
+  | ["dm", a, b, r] => do pure (.demonitor (← nat a) (← nat b) (← nat r))
+  | _ => .error ("bad-op " ++ s)
+
+def sortNat (l : List Nat) : List Nat := (l.toArray.qsort (· < ·)).toList
+
+def resText : Res → String
+  | .ok => "ok"
+  | .pid p => s!"pid={p}"
+  | .ref r => s!"ref={r}"
+  | .found none => "found=-"
+  | .found (some p) => s!"found={p}"
+  | .names l => "names=" ++ ".".intercalate ((sortNat l).map toString)
+  | .count n => s!"count={n}"
+  | .noProc => "noproc"
+  | .closed => "closed"
+  | .taken => "taken"
+  | .noName => "noname"
+
+def msgText : Msg → String
+  | .regular i _ => s!"r{i}"
+  | .exit f => s!"e{f}"
+  | .monExit m r => s!"m{m}.{r}"
+
+/-- an output item: a plain text, or a message handled by process `p` -/
+inductive Item
+  | txt (s : String)
+  | handled (p : Nat) (m : Msg)
+
+/-- step the task of `p` while `cond` holds of its pc (bounded) -/
+def stepWhile (cond : PPc → Bool) : Nat → St → Nat → Option St
+  | 0, st, _ => some st
+  | fuel + 1, st, p =>
+    if cond (st.procs p).pc then
+      match procStep st p 0 with
+      | some st' => stepWhile cond fuel st' p
+      | none => none
+    else some st
+
+def isNotifyLNil : PPc → Bool
+  | .notifyL [] => true
+  | _ => false
+def isNotifyMNil : PPc → Bool
+  | .notifyM [] => true
+  | _ => false
+
+def replayTok (st : St) (tok : String) : Except String (St × Item) :=
+  if tok.startsWith "c" then
+    match (tok.drop 1).toString.splitOn ":" with
+    | [t, op] => do
+      let t ← nat t
+      let op ← parseOp op
+      let st' := run st (callEvs t op)
+      if st'.out.length = st.out.length + 1 ∧ st'.cpc t = .idle then
+        match st'.out.getLast? with
+        | some (_, r) => pure (st', .txt (resText r))
+        | none => pure (st', .txt "!noresult")
+      else pure (st, .txt "!stuck")
+    | _ => .error ("bad-token " ++ tok)
+  else if tok.startsWith "h" then do
+    let p ← nat (tok.drop 1).toString
+    match (st.procs p).pc, (st.procs p).mailbox with
+    | .recv, m :: _ =>
+      match procStep st p 0 with
+      | some st' => pure (st', .handled p m)
+      | none => pure (st, .txt "!stuck")
+    | .recv, [] => pure (st, .txt "!empty")
+    | _, _ => pure (st, .txt "!pc")
+  else if tok.startsWith "x" then
+    match (tok.drop 1).toString.splitOn "." with
+    | [p, k] => do
+      let p ← nat p
+      let k ← nat k
+      if k = 1 then
+        pure (st, .txt (if (st.procs p).pc = .exiting then "." else "!pc"))
+      else if k = 2 then
+        if (st.procs p).pc = .exiting then
+          match stepWhile (fun pc => !isNotifyLNil pc) 4000 st p with
+          | some st' => pure (st', .txt ".")
+          | none => pure (st, .txt "!stuck")
+        else pure (st, .txt "!pc")
+      else
+        if isNotifyLNil (st.procs p).pc then
+          match procStep st p 0 with
+          | some st1 =>
+            match stepWhile (fun pc => !isNotifyMNil pc) 4000 st1 p with
+            | some st' => pure (st', .txt ".")
+            | none => pure (st, .txt "!stuck")
+          | none => pure (st, .txt "!stuck")
+        else pure (st, .txt "!pc")
+    | _ => .error ("bad-token " ++ tok)
+  else if tok.startsWith "d" then do
+    let p ← nat (tok.drop 1).toString
+    if isNotifyMNil (st.procs p).pc then
+      match stepWhile (fun pc => pc != .dead) 3 st p with
+      | some st' => pure (st', .txt (if (st'.procs p).pc = .dead then "." else "!pc"))
+      | none => pure (st, .txt "!stuck")
+    else pure (st, .txt "!pc")
+  else .error ("bad-token " ++ tok)
+
+/-- sort runs of adjacent `monExit` of one monitored pid by reference -/
+def canonRuns : List Msg → List Msg
+  | [] => []
+  | .monExit q r :: rest =>
+    let run := rest.takeWhile (fun m => match m with | .monExit q' _ => q' = q | _ => false)
+    let refs := sortNat (r :: run.filterMap (fun m => match m with | .monExit _ r' => some r' | _ => none))
+    refs.map (.monExit q ·) ++ canonRuns (rest.drop run.length)
+  | m :: rest => m :: canonRuns rest
+termination_by l => l.length
+decreasing_by all_goals (simp_wf; try omega)
+
+def lookupQ (qs : List (Nat × List Msg)) (p : Nat) : List Msg := ((qs.find? (·.1 = p)).map (·.2)).getD []
+def setQ (qs : List (Nat × List Msg)) (p : Nat) (l : List Msg) : List (Nat × List Msg) :=
+  (p, l) :: qs.filter (·.1 ≠ p)
+
+/-- render the items; handled messages are taken from the canonicalised per-process sequences -/
+def render (items : List Item) : String :=
+  let ps := (items.filterMap fun | .handled p _ => some p | _ => none).eraseDups
+  let qs := ps.map fun p => (p, canonRuns (items.filterMap fun | .handled p' m => if p' = p then some m else none | _ => none))
+  let rec go (items : List Item) (qs : List (Nat × List Msg)) (acc : List String) : List String :=
+    match items with
+    | [] => acc.reverse
+    | .txt s :: r => go r qs (s :: acc)
+    | .handled p _ :: r =>
+      match lookupQ qs p with
+      | m :: ms => go r (setQ qs p ms) (msgText m :: acc)
+      | [] => go r qs ("!lost" :: acc)
+  ";".intercalate (go items qs [])
+
+def replay (cap : Nat) (toks : List String) : Except String String := do
+  let mut st := St.init cap
+  let mut items : List Item := []
+  for tok in toks do
+    let (st', it) ← replayTok st tok
+    st := st'
+    items := it :: items
+  pure (render items.reverse)
+
+/-! ### `ProcessRegistry`, sequentially -/
+
+def regOp (r : Reg) (s : String) : Except String (Reg × String) :=
+  match s.splitOn "." with
+  | ["in", p] => do let p ← nat p; pure (r.insert p, "ok")
+  | ["rm", p] => do let p ← nat p; pure (r.remove p, if p ∈ r.byPid then "some" else "none")
+  | ["gt", p] => do let p ← nat p; pure (r, if p ∈ r.byPid then "some" else "none")
+  | ["rg", n, p] => do
+    let n ← nat n; let p ← nat p
+    let x := r.register n p
+    pure (x.1, resText x.2)
+  | ["ur", n] => do let n ← nat n; let x := r.unregister n; pure (x.1, resText x.2)
+  | ["wh", n] => do let n ← nat n; pure (r, resText (.found (r.whereis n)))
+  | ["rd"] => pure (r, resText (.names r.registered))
+  | ["ct"] => pure (r, resText (.count r.count))
+  | _ => .error ("bad-regop " ++ s)
+
+def regRun (ops : List String) : Except String String := do
+  let mut r : Reg := {}
+  let mut outs : List String := []
+  for o in ops do
+    let (r', s) ← regOp r o
+    r := r'
+    outs := s :: outs
+  pure (";".intercalate outs.reverse)
+
+/-! ### behaviours -/
+
+def runE (r : Except String String) : String :=
+  match r with
+  | .ok s => s
+  | .error e => "bad-op " ++ e
+
+def pidArg (p : Edp.PidF) : String := Edp.Term.pidText p
+
+def actText : GsAct → String
+  | .call f r q => s!"call:{pidArg f}:{r.text}:{q.text}"
+  | .cast q => s!"cast:{q.text}"
+  | .info b => s!"info:{b.text}"
+
+def parseGsResult (s : String) : Except String GsResult :=
+  if s == "n" then pure .noReply else if s == "e" then pure .err
+  else if s.startsWith "r:" then do pure (.reply (← getTerm (s.drop 2).toString))
+  else .error "bad-result"
+
+def repliesText (live : Edp.Term) (l : List (Edp.PidF × Edp.Term)) : String :=
+  let l := l.filter fun e => Edp.Term.pid e.1 == live
+  if l.isEmpty then "-" else ",".intercalate (l.map fun e => e.2.text)
+
+/-- the handler callbacks one message causes (ids in the given order) -/
+def geCallbacks (ids : List Edp.Term) : GeAct → List String
+  | .notify e => ids.map fun i => s!"event:{i.text}:{e.text}"
+  | .syncNotify e => ids.map fun i => s!"event:{i.text}:{e.text}"
+  | .info b => ids.map fun i => s!"info:{i.text}:{b.text}"
+  | .call _ _ h q => if ids.any (· == h) then [s!"call:{h.text}:{q.text}"] else []
+  | .which _ _ => []
+
+def geActText (ids : List Edp.Term) (a : GeAct) : String :=
+  let l := geCallbacks ids a
+  if l.isEmpty then "-" else ",".intercalate l
+
+end C18
+
+open C18 in
 def handleC18 : List String → Option String
+  | "c18run" :: cap :: toks => some <| C18.runE do
+      let cap ← C18.nat cap
+      C18.replay cap toks
+  | "c18reg" :: ops => some <| C18.runE (C18.regRun ops)
+  | ["c18gs", body, res, live] => some <| C18.runE do
+      let body ← getTerm body
+      let live ← getTerm live
+      let res ← C18.parseGsResult res
+      pure (C18.actText (Edp.Impl.Procs.gsDispatch body) ++ ";" ++ C18.repliesText live (Edp.Impl.Procs.gsReplies body res))
+  | ["c18ge", frm, body, callReply, ids, live] => some <| C18.runE do
+      let body ← getTerm body
+      let live ← getTerm live
+      let frm ← if frm == "-" then pure none else do
+        match ← getTerm frm with
+        | .pid p => pure (some p)
+        | _ => .error "bad-from"
+      let cr ← if callReply == "-" then pure none else do pure (some (← getTerm callReply))
+      let ids ← if ids == "-" then pure [] else (ids.splitOn ";").mapM getTerm
+      pure (C18.geActText ids (Edp.Impl.Procs.geDispatch body) ++ ";" ++
+        C18.repliesText live (Edp.Impl.Procs.geReplies frm body cr ids))
+  | ["c18gsspec", body, res, live, got] => some <| C18.runE do
+      let body ← getTerm body
+      let live ← getTerm live
+      let mode ← if res.startsWith "r:" then do pure (some (← getTerm (res.drop 2).toString)) else pure none
+      let got ← if got == "-" then pure [] else (got.splitOn ";").mapM getTerm
+      pure (Edp.Spec.Procs.gsCheck body mode live got)
+  | ["c18gespec", frm, body, callReply, ids, live, got] => some <| C18.runE do
+      let body ← getTerm body
+      let live ← getTerm live
+      let frm ← if frm == "-" then pure none else do pure (some (← getTerm frm))
+      let cr ← if callReply == "-" then pure none else do pure (some (← getTerm callReply))
+      let ids ← if ids == "-" then pure [] else (ids.splitOn ";").mapM getTerm
+      let got ← if got == "-" then pure [] else (got.splitOn ";").mapM getTerm
+      pure (Edp.Spec.Procs.geCheck frm body cr ids live got)
+  | "c18spec" :: toks => some (Edp.Spec.Procs.check false toks)
+  | "c18specfull" :: toks => some (Edp.Spec.Procs.check true toks)
   | _ => none
 
 end Edp.Drv
